@@ -2,6 +2,7 @@ import Driver.OpsBits
 import Driver.OpsTemplate
 import Driver.OpsIeee
 import Driver.OpsCodec
+import Driver.OpsTables
 /-
   bvp_lean — line-protocol driver: one operation per input line, one canonical
   result line per operation, computed by the *model*.  Each model area has its own
@@ -15,6 +16,7 @@ structure St where
   tm : TmplSt := {}
   ieee : IeeeSt := {}
   codec : CodecSt := {}
+  tbl : TblSt := {}
 
 def step (st : St) (line : String) : St × String :=
   let toks := (line.trimAscii.toString.splitOn " ").filter (· ≠ "")
@@ -38,7 +40,11 @@ partial def loop (h : IO.FS.Stream) (out : IO.FS.Stream) (st : St) : IO Unit := 
   let t := line.trimAscii.toString
   if t.isEmpty || t.startsWith "#" then loop h out st
   else
-    let (st', o) := step st line
+    let toks := (line.trimAscii.toString.splitOn " ").filter (· ≠ "")
+    let (st', o) ← (do
+      match ← stepTables st.tbl toks with      -- tbl.* ops read table files: the only ops doing IO
+      | some (s, o) => pure ({ st with tbl := s }, o)
+      | none => pure (step st line))
     out.putStrLn o
     loop h out st'
 
